@@ -304,7 +304,7 @@ func (c16) RunCase(c *core.Ctx) {
 						}
 						c.Violation("derived-schema-differs-from-hand-built|"+cls, map[string]any{"history": history, "after_step": step, "schema": fmt.Sprintf("S%d", si), "mode": mode,
 							"input": obs.Render(obs.Norm(data)), "model_fields": keysOfSchema(m.fields), "model_tests": m.tests, "model_posts": m.posts,
-							"observed": map[string]string{"issues": got.issues, "destination": got.dest, "callbacks_in_order": got.calls, "panic": got.panic},
+							"observed":   map[string]string{"issues": got.issues, "destination": got.dest, "callbacks_in_order": got.calls, "panic": got.panic},
 							"hand_built": map[string]string{"issues": want.issues, "destination": want.dest, "callbacks_in_order": want.calls, "panic": want.panic}})
 						return false
 					}
